@@ -168,6 +168,7 @@ let rout_str = function
 let cmd_rhist d t =
   let limit = n_of_string (next t) in
   let st = ref M.r_init in
+  let wst = ref M.ws_init and wcheck = ref true and wbytes = ref 0 in
   let outs = ref [] in
   while not (tdone t) do
     let op = next t in
@@ -180,6 +181,17 @@ let cmd_rhist d t =
         | _ -> failwith ("bad rhist op " ^ op) in
     let (st', out) = M.r_do d !st rop in
     st := st';
+    (* cross-check: the Decompressor transcribed on 64-bit words (RState.v; proved to simulate
+       r_step) run on the same operations gives the same output and bit position *)
+    if !wcheck then begin
+      (match rop with M.RWrite bs -> wbytes := !wbytes + List.length bs | _ -> ());
+      if !wbytes > 3000 then wcheck := false else begin
+        let (wst', wout) = M.ws_do d !wst rop in
+        wst := wst';
+        if rout_str wout <> rout_str out || wst'.M.ws_bit <> st'.M.r_bit then
+          failwith "word-level decompressor (RState.ws_do) differs from Reader.r_do"
+      end
+    end;
     outs := (rout_str out ^ " @" ^ string_of_n st'.M.r_bit) :: !outs
   done;
   String.concat " ; " (List.rev !outs)
@@ -191,6 +203,7 @@ let cmd_whist d t =
   let gcds = next_int t <> 0 in
   let cfg = { M.w_level = level; w_order = order; w_gcds = gcds } in
   let st = ref M.w_init in
+  let wwst = ref M.ww_init and wwcheck = ref true in
   let outs = ref [] in
   while not (tdone t) do
     let op = next t in
@@ -201,6 +214,23 @@ let cmd_whist d t =
       | _ -> failwith ("bad whist op " ^ op) in
     let (st', out) = M.w_step cfg d !st wop in
     st := st';
+    (* cross-check: the Compressor transcribed on the 64-bit-word BitWriter (WState.v) *)
+    let small = (match wop with M.WChunk (xs, _) -> List.length xs <= 4000 | _ -> true) in
+    if !wwcheck && small then begin
+      let (wst', wout) = M.ww_step cfg d !wwst wop in
+      wwst := wst';
+      let same = (match out, wout with
+        | M.WUnit, M.WUnit -> true
+        | M.WMeta a, M.WMeta b -> meta_str a = meta_str b
+        | M.WBytes a, M.WBytes b -> a = b
+        | M.WSize a, M.WSize b -> a = b
+        | M.WErr a, M.WErr b -> a = b
+        | M.WPanic, M.WPanic -> true
+        | _ -> false) in
+      (* a late failure (table not covering a number) leaves the real writer half written: outside the simulation's guard *)
+      (match out with M.WErr _ | M.WPanic -> (match wop with M.WChunk _ -> wwcheck := false | _ -> ()) | _ -> ());
+      if !wwcheck && not same then failwith "word-level compressor (WState.ww_step) differs from Writer.w_step"
+    end else wwcheck := false;
     let s = match out with
       | M.WUnit -> "u" | M.WMeta m -> "M " ^ meta_str m | M.WBytes bs -> "B " ^ hex_of_bytes bs
       | M.WSize n -> "S " ^ string_of_n n | M.WErr k -> "err " ^ kind_str k
